@@ -40,7 +40,7 @@ KINDS = ("ok","explicit","raise-","bad-res","skip","id","send-fails","bind-fail"
 
 
 def run(rep, tier, seed):
-    return C.standard_run(rep, PROP, ["Model/CaseDispatch.vo"], body_factory(tier, seed), rule=RULE)
+    return C.standard_run(rep, PROP, ["Model/CaseDispatch.vo"], [body_factory(tier, seed + 1000 * i) for i in range(3 if tier == "thorough" else 1)], rule=RULE)
 
 
 def replay(d):
